@@ -18,7 +18,7 @@ use soroban_sdk::{Address, Env};
 use std::collections::BTreeMap;
 
 const OPS: [&str; 4] = ["pay_gas", "add_gas", "collect_fees", "refund"];
-const AMOUNTS: [&str; 7] = ["zero", "negative", "one", "balance", "balance+1", "random", "i128-max"];
+const AMOUNTS: [&str; 8] = ["zero", "negative", "one", "balance", "balance+1", "random", "i128-max", "2^64+1"];
 
 fn token_scval(addr: &Address, amount: i128) -> ScVal {
     sv_struct(vec![("address", sv_addr(&sc_addr(addr))), ("amount", sv_i128(amount))])
@@ -59,10 +59,11 @@ pub fn run(ctx: &Ctx, rep: &mut Report) {
         let mut bal: BTreeMap<(usize, Address), i128> = BTreeMap::new();
         for (ti, t) in toks.iter().enumerate() {
             for s in &spenders {
-                let amt = match rng.below(4) {
+                let amt = match rng.below(5) {
                     0 => 0,
                     1 => 1,
                     2 => 1000,
+                    3 => (1i128 << 64) + 1 + rng.below(1000) as i128,
                     _ => (rng.next_u64() >> 20) as i128,
                 };
                 if amt > 0 {
@@ -111,6 +112,7 @@ pub fn run(ctx: &Ctx, rep: &mut Report) {
                 "balance" => have,
                 "balance+1" => have + 1,
                 "i128-max" => i128::MAX,
+                "2^64+1" => (1i128 << 64) + 1,
                 _ => 1 + (rng.next_u64() as i128 % (have.max(1) * 2)),
             };
             // who authorises
